@@ -138,12 +138,13 @@ type ctx struct {
 	info     *types.Info
 	file     *ast.File
 	fname    string
+	nrange   int
 	captured map[*types.Var]bool // local variables referenced from a function literal (shared between goroutines when the literal is started with go)
 }
 
 func instrumentPackage(p *packages.Package, overlay map[string]string) {
-	var globMutex []string
-	var registries []string
+	var globMutex, globRW []string
+	var registries, syncMaps []string
 	for i, f := range p.Syntax {
 		path := p.CompiledGoFiles[i]
 		if strings.HasSuffix(path, "_test.go") {
@@ -169,9 +170,15 @@ func instrumentPackage(p *packages.Package, overlay map[string]string) {
 					if ts == "sync.Mutex" {
 						globMutex = append(globMutex, n.Name)
 					}
-					if ts == "map[string]any" || ts == "map[string]interface{}" {
-						if strings.HasSuffix(n.Name, "Class") {
+					if ts == "sync.RWMutex" {
+						globRW = append(globRW, n.Name)
+					}
+					// class registries: package-level maps (or sync.Map) named ...Class, whatever their key type
+					if strings.HasSuffix(n.Name, "Class") {
+						if mt, isMap := obj.Type().Underlying().(*types.Map); isMap && types.IsInterface(mt.Elem()) {
 							registries = append(registries, n.Name)
+						} else if ts == "sync.Map" {
+							syncMaps = append(syncMaps, n.Name)
 						}
 					}
 				}
@@ -201,9 +208,17 @@ func instrumentPackage(p *packages.Package, overlay map[string]string) {
 		fmt.Fprintf(&b, "\t_vrt.MarkGlobal(&%s, %q)\n", m, p.Name+"."+m)
 		st.GlobalMutexes = append(st.GlobalMutexes, p.Name+"."+m)
 	}
+	for _, m := range globRW {
+		fmt.Fprintf(&b, "\t_vrt.MarkGlobalRW(&%s, %q)\n", m, p.Name+"."+m)
+		st.GlobalMutexes = append(st.GlobalMutexes, p.Name+"."+m)
+	}
 	fmt.Fprintf(&b, "\t_vrt.RegisterReset(VerifReset)\n}\n\n// VerifReset empties the class registries of this package (first-use scenarios).\nfunc VerifReset() {\n")
 	for _, r := range registries {
-		fmt.Fprintf(&b, "\t%s = map[string]any{}\n", r)
+		fmt.Fprintf(&b, "\tclear(%s)\n", r)
+		st.Registries = append(st.Registries, p.Name+"."+r)
+	}
+	for _, r := range syncMaps {
+		fmt.Fprintf(&b, "\t%s.Clear()\n", r)
 		st.Registries = append(st.Registries, p.Name+"."+r)
 	}
 	fmt.Fprintf(&b, "}\n")
@@ -375,8 +390,7 @@ func (c *ctx) stmt(s ast.Stmt) []ast.Stmt {
 		lg.expr(n.Chan, false)
 		lg.expr(n.Value, false)
 		st.Sends++
-		c.requireBidi(n.Chan)
-		x := call(sel("_vrt", "Send"), c.expr(n.Chan), c.expr(n.Value), strLit(c.site(n.Pos())))
+		x := call(sel("_vrt", "Send"), c.chanArg(n.Chan), c.expr(n.Value), strLit(c.site(n.Pos())))
 		pre = lg.emit(n.Pos())
 		return append(pre, &ast.ExprStmt{X: x})
 	case *ast.IncDecStmt:
@@ -401,8 +415,7 @@ func (c *ctx) stmt(s ast.Stmt) []ast.Stmt {
 		if len(n.Lhs) == 2 && len(n.Rhs) == 1 {
 			if u, ok := unparen(n.Rhs[0]).(*ast.UnaryExpr); ok && u.Op == token.ARROW {
 				st.Recvs++
-				c.requireBidi(u.X)
-				n.Rhs[0] = call(sel("_vrt", "Recv2"), c.expr(u.X), strLit(c.site(u.Pos())))
+				n.Rhs[0] = call(sel("_vrt", "Recv2"), c.chanArg(u.X), strLit(c.site(u.Pos())))
 				for i := range n.Lhs {
 					n.Lhs[i] = c.expr(n.Lhs[i])
 				}
@@ -462,7 +475,7 @@ func (c *ctx) stmt(s ast.Stmt) []ast.Stmt {
 		st.Loops++
 		if t := c.info.TypeOf(n.X); t != nil {
 			if _, isChan := t.Underlying().(*types.Chan); isChan {
-				refuse(c.fset, n.Pos(), "range over a channel")
+				return c.rangeChan(n, lg)
 			}
 			if _, isFunc := t.Underlying().(*types.Signature); isFunc {
 				refuse(c.fset, n.Pos(), "range over a function")
@@ -634,22 +647,19 @@ func (c *ctx) selectStmt(n *ast.SelectStmt) []ast.Stmt {
 		var pre []ast.Stmt
 		switch cm := cc.Comm.(type) {
 		case *ast.SendStmt:
-			c.requireBidi(cm.Chan)
-			cases = append(cases, call(sel("_vrt", "SendCase"), c.expr(cm.Chan), c.expr(cm.Value)))
+			cases = append(cases, call(sel("_vrt", "SendCase"), c.chanArg(cm.Chan), c.expr(cm.Value)))
 		case *ast.ExprStmt:
 			u, ok := unparen(cm.X).(*ast.UnaryExpr)
 			if !ok || u.Op != token.ARROW {
 				refuse(c.fset, cm.Pos(), "select clause")
 			}
-			c.requireBidi(u.X)
-			cases = append(cases, call(sel("_vrt", "RecvCase"), c.expr(u.X)))
+			cases = append(cases, call(sel("_vrt", "RecvCase"), c.chanArg(u.X)))
 		case *ast.AssignStmt:
 			u, ok := unparen(cm.Rhs[0]).(*ast.UnaryExpr)
 			if !ok || u.Op != token.ARROW || len(cm.Rhs) != 1 {
 				refuse(c.fset, cm.Pos(), "select clause")
 			}
-			c.requireBidi(u.X)
-			ch := c.expr(u.X)
+			ch := c.chanArg(u.X)
 			cases = append(cases, call(sel("_vrt", "RecvCase"), ch))
 			lhs := append([]ast.Expr(nil), cm.Lhs...)
 			if len(lhs) == 1 {
@@ -675,6 +685,56 @@ func (c *ctx) selectStmt(n *ast.SelectStmt) []ast.Stmt {
 	assign := &ast.AssignStmt{Lhs: []ast.Expr{ast.NewIdent("_vsel")}, Tok: token.DEFINE, Rhs: []ast.Expr{selCall}}
 	sw := &ast.SwitchStmt{Tag: &ast.SelectorExpr{X: ast.NewIdent("_vsel"), Sel: ast.NewIdent("Index")}, Body: &ast.BlockStmt{List: clauses}}
 	return []ast.Stmt{&ast.BlockStmt{List: []ast.Stmt{assign, sw}}}
+}
+
+// rangeChan rewrites `for v := range ch { body }` into
+//
+//	_vchN := ch
+//	for { v, _vokN := _vrt.Recv2(_vchN, site); if !_vokN { break }; body }
+//
+// (the loop stays the last statement so that a label keeps naming it).
+func (c *ctx) rangeChan(n *ast.RangeStmt, lg *logger) []ast.Stmt {
+	c.nrange++
+	chName := fmt.Sprintf("_vch%d", c.nrange)
+	okName := fmt.Sprintf("_vok%d", c.nrange)
+	lg.expr(n.X, false)
+	pre := lg.emit(n.Pos())
+	// the helper is chosen by the operand's own type, the hoisted variable keeps that type
+	var recvCh ast.Expr = ast.NewIdent(chName)
+	if ct, ok := c.info.TypeOf(n.X).Underlying().(*types.Chan); ok && ct.Dir() == types.RecvOnly {
+		recvCh = call(sel("_vrt", "FromRecv"), recvCh)
+	}
+	pre = append(pre, &ast.AssignStmt{Lhs: []ast.Expr{ast.NewIdent(chName)}, Tok: token.DEFINE, Rhs: []ast.Expr{c.expr(n.X)}})
+	recv := call(sel("_vrt", "Recv2"), recvCh, strLit(c.site(n.Pos())))
+	var key ast.Expr = ast.NewIdent("_")
+	if n.Key != nil {
+		key = n.Key
+	}
+	var head []ast.Stmt
+	if n.Tok == token.ASSIGN {
+		if lg2 := (&logger{c: c}); lg2.hasAccess(key) {
+			st.Opaque++
+			st.OpaqueSites = append(st.OpaqueSites, c.site(n.Pos())+" (range-assign)")
+			head = append(head, &ast.ExprStmt{X: call(sel("_vrt", "Opaque"), strLit(c.site(n.Pos())))})
+		}
+		pre = append(pre, &ast.DeclStmt{Decl: &ast.GenDecl{Tok: token.VAR, Specs: []ast.Spec{&ast.ValueSpec{Names: []*ast.Ident{ast.NewIdent(okName)}, Type: ast.NewIdent("bool")}}}})
+		head = append(head, &ast.AssignStmt{Lhs: []ast.Expr{c.expr(key), ast.NewIdent(okName)}, Tok: token.ASSIGN, Rhs: []ast.Expr{recv}})
+	} else {
+		head = append(head, &ast.AssignStmt{Lhs: []ast.Expr{key, ast.NewIdent(okName)}, Tok: token.DEFINE, Rhs: []ast.Expr{recv}})
+	}
+	head = append(head, &ast.IfStmt{
+		Cond: &ast.UnaryExpr{Op: token.NOT, X: ast.NewIdent(okName)},
+		Body: &ast.BlockStmt{List: []ast.Stmt{&ast.BranchStmt{Tok: token.BREAK}}},
+	})
+	if id, ok := key.(*ast.Ident); ok && id.Name != "_" && n.Tok == token.DEFINE {
+		head = append(head, &ast.AssignStmt{Lhs: []ast.Expr{ast.NewIdent("_")}, Tok: token.ASSIGN, Rhs: []ast.Expr{ast.NewIdent(id.Name)}})
+	}
+	st.Recvs++
+	c.block(n.Body)
+	body := append([]ast.Stmt{tickStmt()}, head...)
+	body = append(body, n.Body.List...)
+	loop := &ast.ForStmt{Body: &ast.BlockStmt{List: body}}
+	return append(pre, loop)
 }
 
 func (c *ctx) goStmt(n *ast.GoStmt) []ast.Stmt {
@@ -726,14 +786,24 @@ func unparen(e ast.Expr) ast.Expr {
 	}
 }
 
-func (c *ctx) requireBidi(ch ast.Expr) {
+// chanArg returns the instrumented channel operand of a send, receive or close.
+// The runtime's operations take a bidirectional channel; a directional operand
+// is handed over through a re-typing helper (same channel, same identity).
+func (c *ctx) chanArg(ch ast.Expr) ast.Expr {
 	t := c.info.TypeOf(ch)
+	e := c.expr(ch)
 	if t == nil {
-		return
+		return e
 	}
-	if ct, ok := t.Underlying().(*types.Chan); ok && ct.Dir() != types.SendRecv {
-		refuse(c.fset, ch.Pos(), "operation on a directional channel")
+	if ct, ok := t.Underlying().(*types.Chan); ok {
+		switch ct.Dir() {
+		case types.RecvOnly:
+			return call(sel("_vrt", "FromRecv"), e)
+		case types.SendOnly:
+			return call(sel("_vrt", "FromSend"), e)
+		}
 	}
+	return e
 }
 
 // exprFuncLits instruments function literals nested in e.
@@ -758,16 +828,14 @@ func (c *ctx) expr(e ast.Expr) ast.Expr {
 	case *ast.UnaryExpr:
 		if n.Op == token.ARROW {
 			st.Recvs++
-			c.requireBidi(n.X)
-			return call(sel("_vrt", "Recv"), c.expr(n.X), strLit(c.site(n.Pos())))
+			return call(sel("_vrt", "Recv"), c.chanArg(n.X), strLit(c.site(n.Pos())))
 		}
 		n.X = c.expr(n.X)
 	case *ast.CallExpr:
 		if id, ok := n.Fun.(*ast.Ident); ok && id.Name == "close" {
 			if _, isBuiltin := c.info.Uses[id].(*types.Builtin); isBuiltin {
 				st.Closes++
-				c.requireBidi(n.Args[0])
-				return call(sel("_vrt", "Close"), c.expr(n.Args[0]), strLit(c.site(n.Pos())))
+				return call(sel("_vrt", "Close"), c.chanArg(n.Args[0]), strLit(c.site(n.Pos())))
 			}
 		}
 		n.Fun = c.expr(n.Fun)
